@@ -215,6 +215,7 @@ class rewrite_goal_with_prev(Tactic):
         eq_th = cv.eval(C)
         new_goal = eq_th.prop.rhs
 
+        assert new_goal != C, "rewrite_goal_with_prev: unable to rewrite"
         prevs = list(prevs)
         if not new_goal.is_reflexive():
             prevs.append(ProofTerm.sorry(Thm(new_goal, goal.hyps)))
